@@ -85,6 +85,12 @@ class ObjectFactory:
             raise TypeError("core certificate type not supported")
 
     def _build_pie_key(self, key, cls):
+        if key.key_block.cryptographic_algorithm is None or \
+                key.key_block.cryptographic_length is None:
+            raise TypeError(
+                "the key block must specify a cryptographic algorithm and a "
+                "cryptographic length"
+            )
         algorithm = key.key_block.cryptographic_algorithm.value
         length = key.key_block.cryptographic_length.value
         value = key.key_block.key_value.key_material.value
